@@ -10,8 +10,14 @@ from mc import core, e2_threads as e2
 def execute(code, chain, prefix):
     c3.patch()
     log = []
+    # chain >= 10: the application has announced a finite idle time (a timer pending, say: an hour) before the loop goes idle
+    limited, chain = chain >= 10, chain % 10
     root = BaseComponent()
     comp = BaseComponent().register(root)
+    if limited:
+        def on_ge(self, event, *a):
+            event.reduce_time_left(3600)
+        comp.addHandler(handler('generate_events', priority=50)(on_ge))
     seen = {'started': False}
 
     def on_started(self, event, *a):
@@ -142,7 +148,8 @@ def _explore(items):
 def run(tier, seed, workers):
     total = core.Stats()
     items = []
-    configs = [(None, 2, 1), (3, 2, 1), (0, 0, 1), (None, 0, 2)] if tier == 'quick' else [(None, 0, 3), (3, 0, 2), (0, 0, 2), (None, 2, 2), (3, 2, 2)]
+    configs = [(None, 2, 1), (3, 2, 1), (0, 0, 1), (None, 0, 2), (None, 10, 1), (3, 12, 1)] if tier == 'quick' else [
+        (None, 0, 3), (3, 0, 2), (0, 0, 2), (None, 2, 2), (3, 2, 2), (None, 10, 2), (3, 12, 2)]
     for code, chain, bound in configs:
         if True:
             ex, log, res = execute(code, chain, [])
